@@ -114,6 +114,46 @@ def main(chk):
         if name == 'FAST_STOCH':
             for n in ns[:3]: jobs.append((r_family, (mir, name, 'bar', n, n + 1, 0, chk.seed, to), {}))
     chk.add(run_jobs(jobs))
+    hs = []
+    for nm in ('MIN', 'MAX', 'FAST_STOCH'):
+        for n in ((1, 2, 3) if q else (1, 2, 3, 4)):
+            if nm == 'FAST_STOCH' and n > 1: continue        # the division does not finish in CBMC; its extremes are Minimum/Maximum
+            for p in (range(1, n + 2) if q else range(1, n + 3)):
+                hs.append(k_forget(nm, n, p))
+    chk.add(kani.run_family_set('C17', hs, jobs=12, timeout_s=300 if q else 1800))
     chk.assumptions += ['f64 arithmetic modelled as exact real arithmetic in engine R: equality is exact there; the tolerance applies to native confirmation only',
                         'prefix values unconstrained (|x| <= 1e12): an outlier 1e6 times larger than the suffix is the general case']
     chk.notes += ['prefixes longer than n+3 (covered for all lengths only together with the C13 inductive step)', 'floating-point residue of a spike (C13 / Kani part)']
+
+
+# ------------------------------------------------------------------------------------------------ engine K
+from vlib import kani, native
+from vlib.kani import KB, KOps
+
+
+def k_forget(name, n, p):
+    """prefix of ANY f64 (NaN, inf included), then n finite inputs: output == fresh instance fed the finite suffix"""
+    b = KB('c17_forget_%s_n%d_p%d' % (name.lower(), n, p), unwind=n + 3,
+           family='K:C17 %s n=%d: arbitrary-f64 prefix (%d values, NaN/inf included), finite suffix of %d -> exactly the fresh instance\'s output' % (name, n, p, n),
+           bounds=dict(engine='K', indicator=name, n=n, prefix='%d values, every f64 bit pattern' % p, suffix='%d values, every finite f64' % n))
+    k = KOps(b)
+    k.new('a', name, [n]); k.new('f', name, [n])
+    for i in range(p): k.feed('a', 'scalar', 'any', 'p%d' % i)
+    oa = of = None
+    for i in range(n):
+        v = b.anyf('s%d' % i, finite=True)
+        pol = ('var', v, ('sym', 's%d' % i))
+        oa = k.feed('a', 'scalar', pol); of = k.feed('f', 'scalar', pol)
+    b.emit('assert!(same(%s, %s), "history older than the window still influences the output");' % (oa, of))
+
+    def confirm(vals):
+        ops = k.concrete(vals)
+        for prof in ('dev', 'release'):
+            lines, outs = kani.native_ops(ops, prof)
+            xa = [o for op, o in zip(ops, outs) if op[0] == 'feed' and op[1] == 'a'][-1]
+            xf = [o for op, o in zip(ops, outs) if op[0] == 'feed' and op[1] == 'f'][-1]
+            if xa == 'panic' or xf == 'panic' or not all(kani.same_f(p_, q_) for p_, q_ in zip(xa, xf)):
+                return True, lines, '%s(%d) after the prefix returns %r, a fresh instance fed the last %d inputs returns %r (%s)' % (name, n, xa, n, xf, prof)
+        return False, lines, 'native outputs agree'
+    b.confirm = confirm
+    return b
